@@ -93,6 +93,27 @@ def run_replay(prop, modname, condname, args, cond=None):
     return verdict
 
 
+def variants(cond, args, limit):
+    """further valid instances near a witness: flip each bool / shift each int by +-1, keep those that satisfy
+    the preconditions (deterministic; used only to compare stub and real backends, never as a verdict)"""
+    out = []
+    names = list(args)
+    for name in names:
+        v = args[name]
+        cands = [not v] if isinstance(v, bool) else ([v + 1, v - 1] if isinstance(v, int) else [])
+        for c in cands:
+            a2 = dict(args)
+            a2[name] = c
+            try:
+                if all(eval(p, {"len": len}, dict(a2)) for p in cond.pres):
+                    out.append(a2)
+            except Exception:  # noqa
+                continue
+            if len(out) >= limit:
+                return out
+    return out
+
+
 def run_property(prop, modname, tier, seed, log=print):
     """Run all conditions of a harness module for a tier.  Returns
     (exit_code, per-condition records, violations, lines)."""
@@ -203,6 +224,24 @@ def run_property(prop, modname, tier, seed, log=print):
                         exit_code = max(exit_code, EXIT_HARNESS)
                         log("HARNESS-ERROR property=%s condition=%s: instance %s holds under CrossHair but "
                             "fails on replay: %s" % (prop, c.name, tm["args"], str(v.get("detail"))[:400]))
+                    else:
+                        # a few more valid instances around the witness: stubs and real backends must agree
+                        more = variants(c, tm["args"], 3 if tier == "quick" else 8)
+                        agree = 0
+                        with ThreadPoolExecutor(4) as ex2:
+                            outs = list(ex2.map(lambda iv: run_replay(prop, modname, "%s__var%d" % (c.name, iv[0]),
+                                                                      iv[1], cond=c.name), enumerate(more)))
+                        for a2, v2 in zip(more, outs):
+                            if v2.get("stub") in ("ok", "fail") and v2.get("real") in ("ok", "fail") \
+                                    and v2.get("stub") != v2.get("real"):
+                                rec["verdict"] = "harness-error: stubs and real backends disagree on %s" % (a2,)
+                                rec["exhaustive"] = False
+                                exit_code = max(exit_code, EXIT_HARNESS)
+                                log("HARNESS-ERROR property=%s condition=%s: instance %s: stub %s / real %s: %s"
+                                    % (prop, c.name, a2, v2.get("stub"), v2.get("real"), str(v2.get("detail"))[:300]))
+                            elif v2.get("real") == "ok":
+                                agree += 1
+                        rec["real_instances_more"] = agree
             elif tst == "CONFIRMED" or tst == "PRE_UNSAT":
                 rec["reachable"] = False
                 if rec["verdict"] == "confirmed":
